@@ -21,7 +21,7 @@
 From Coq Require Import List ZArith QArith Qround Qabs Bool Arith Lia.
 From LMBase Require Import Res ListX IEEE.
 From LMDist Require Import GenDist DistSkel DistModel DistInst DistProofs DistConv DistTail DistBuild DistThms
-  DistDyadic DistCheckProofs DistStretch DistIEEE DistTotal DistNaive DistWords DistRound.
+  DistDyadic DistCheckProofs DistStretch DistIEEE DistTotal DistNaive DistWords DistRound DistGridModel DistGrid.
 Import ListNotations.
 Local Open Scope Q_scope.
 
@@ -186,6 +186,32 @@ Theorem C11_checker_tails : forall (m : list (list F64.t)) (bg : list F64.t),
   c11_in_scope m bg = true ->
   forall t, tail_exact (c11_qm m) (c11_qbg bg) t == tail_exact (map (map f64_cell) m) (map f64_to_Q bg) t.
 Proof. exact c11_tail_values. Qed.
+
+(* Long motifs (more than 70000 words): the exact tails are computed on the integer grid of the
+   scores -- one table entry per distinct word score, the integer weights of the words sharing it
+   added up row after row (DistGridModel.conv_tableZ).  That table has the tails of the table of all
+   words for every matrix (no grid assumption: on a matrix without coinciding scores it simply is as
+   long), so the same exact probability of the specification ... *)
+Theorem C11_tail_grid_correct : forall k j, (0 <= k)%Z -> (0 <= j)%Z ->
+  forall (cz : list (list (option Z))) (bgz : list Z) t,
+  tail_exact (map (map (qcell k)) cz) (map (qweight j) bgz) t ==
+  tail_dy (conv_tableZ cz bgz) k j (Z.of_nat (length cz)) t.
+Proof. exact tail_grid_correct. Qed.
+
+(* ... and the checker the driver uses for them is the checker through the table of all words, as
+   a function: it fails exactly when that one would (if it could be run) *)
+Theorem C11_grid_checker_eq : forall m bg sf pv br rt,
+  check_C11_grid_fails m bg sf pv br rt = check_C11_fails m bg sf pv br rt.
+Proof. exact check_C11_grid_eq. Qed.
+
+Theorem check_C11_grid_sound : forall m bg sf pv br rt,
+  check_C11_grid m bg sf pv br rt = true -> Holds_C11 m bg sf pv br rt.
+Proof. exact check_C11_grid_sound_lemma. Qed.
+
+(* the driver runs the construction with a linear-time list reversal ([rev_append] for [rev] in the
+   survival loop): the same function, for every carrier *)
+Theorem C11_build_fast_eq : forall (T : Type) (N : NumOps T) m bg, build_fast N m bg = build N m bg.
+Proof. exact build_fast_eq. Qed.
 
 (* The model's formulation of the inner loop of the convolution is the Rust loop
      for k in 0..=max { let old = pdf_old[k]; if old != 0.0 { pdf_new[k + s] += old * b } }
@@ -421,3 +447,12 @@ Example ex_roundtrip_pred :
                                        [1166016512; 1166016513; 1166016513; 1166016514; ninf32]]%Z) (map f32_val bg_uniform32) with
   | Ok d => f64_unscale_exact_on (d_scale_f d) (d_offset d) (d_rows d) (length (d_sf d)) | _ => true end = false.
 Proof. split; vm_compute; reflexivity. Qed.
+
+(* the grid table of a 30-column matrix with cells 0/1 has 31 entries (the table of all words would
+   have 2^30), carries the weights of all of them, and gives P(S >= 30) = 2^-30 *)
+Example ex_grid :
+  let cz := repeat [Some 0%Z; Some 1%Z] 30 in
+  let tab := conv_tableZ cz [1%Z; 1%Z] in
+  length tab = 31%nat /\ tail_tabZ tab 0 0 = (2 ^ 30)%Z /\ tail_tabZ tab 30 0 = 1%Z /\
+  tail_dy tab 0 1 30 (30 # 1) == 1 # (2 ^ 30).
+Proof. cbv zeta. conj_all; vm_compute; reflexivity. Qed.
